@@ -30,12 +30,12 @@ func TestMain(m *testing.M) { hx.Main(m, run) }
 
 // Case: which secret, under which environment of the draw.
 type Case struct {
-	Kind string // reseed-nonces | reseed-exchange | reseed-srp | clock-nonce | clock-exponent
-	Seed int64  // value the process-global math/rand is seeded with (reseed kinds)
-	G    int32
+	Kind     string // reseed-nonces | reseed-exchange | reseed-srp | clock-nonce | clock-exponent
+	Seed     int64  // value the process-global math/rand is seeded with (reseed kinds)
+	G        int32
 	Password string
 	Scenario *scen.Scenario `json:",omitempty"`
-	Found string `json:",omitempty"` // how the secret was reproduced
+	Found    string         `json:",omitempty"` // how the secret was reproduced
 }
 
 type rapidSource struct{ t *rapid.T }
